@@ -90,6 +90,7 @@ type ftr struct {
 	vars  map[string]ty // lean-visible variables (params and locals)
 	ret   ty
 	depth int
+	named string // the function's single named result, if it has one and the body refers to it ("" otherwise)
 }
 
 func exprText(fset *token.FileSet, e ast.Expr) string {
@@ -156,12 +157,48 @@ func translateFunc(repo string, fs FuncSpec) (string, error) {
 		t.vars[p.Name] = pt
 		params = append(params, fmt.Sprintf("(%s : %s)", p.Name, pt.lean()))
 	}
+	// A single named result (`func f(...) (csum uint32)`) is a local variable initialised to zero; a bare
+	// `return` returns it. Only when the body mentions it (or has a bare return), so that functions that
+	// were translatable before produce exactly the same text.
+	prelude := ""
+	if rs := fd.Type.Results; rs != nil && len(rs.List) == 1 && len(rs.List[0].Names) == 1 && rs.List[0].Names[0].Name != "_" {
+		id := rs.List[0].Names[0]
+		used := false
+		ast.Inspect(fd.Body, func(n ast.Node) bool {
+			switch x := n.(type) {
+			case *ast.Ident:
+				if x.Name == id.Name {
+					used = true
+				}
+			case *ast.ReturnStmt:
+				if len(x.Results) == 0 {
+					used = true
+				}
+			}
+			return true
+		})
+		if _, isParam := t.vars[id.Name]; used && !isParam {
+			vt := t.ret
+			if obj := info.Defs[id]; obj != nil {
+				if gt, ok := fromGoType(obj.Type()); ok && (gt.bool || gt.w != 0) {
+					vt = gt
+				}
+			}
+			zero := "false"
+			if !vt.bool {
+				zero = fmt.Sprintf("0#%d", vt.w)
+			}
+			t.vars[id.Name] = vt
+			t.named = id.Name
+			prelude = fmt.Sprintf("%slet %s : %s := %s\n", ind(1), id.Name, vt.lean(), zero)
+		}
+	}
 	body, err := t.stmts(fd.Body.List, 1)
 	if err != nil {
 		return "", err
 	}
-	return fmt.Sprintf("/-- translated from `%s` (%s) -/\ndef %s %s : %s :=\n%s\n",
-		fs.Func, fs.Dir, fs.Lean, strings.Join(params, " "), t.ret.lean(), body), nil
+	return fmt.Sprintf("/-- translated from `%s` (%s) -/\ndef %s %s : %s :=\n%s%s\n",
+		fs.Func, fs.Dir, fs.Lean, strings.Join(params, " "), t.ret.lean(), prelude, body), nil
 }
 
 func ind(n int) string { return strings.Repeat("  ", n) }
@@ -209,6 +246,13 @@ func (t *ftr) stmts(list []ast.Stmt, d int) (string, error) {
 	s, rest := list[0], list[1:]
 	switch s := s.(type) {
 	case *ast.ReturnStmt:
+		if len(s.Results) == 0 && t.named != "" {
+			e, err := t.coerce(t.named, t.vars[t.named], t.ret)
+			if err != nil {
+				return "", err
+			}
+			return ind(d) + e, nil
+		}
 		if len(s.Results) != 1 {
 			return "", fmt.Errorf("return with %d results", len(s.Results))
 		}
